@@ -40,11 +40,13 @@ Proof. destruct a, b; cbn; split; congruence. Qed.
 (** shape of the dataset relative to the (N-1)^4 its own metadata announces: as announced /
     not broadcastable into the slot (numpy ValueError on the store) / lower rank or extent 1
     (numpy broadcasts it silently) / dataset absent (KeyError on the read) *)
-Inductive dshape := ShapeOk | ShapeSmaller | ShapeBroadcast | ShapeMissing.
+Inductive dshape := ShapeOk | ShapeSmaller | ShapeBroadcast | ShapeMissing
+                 | FileUnreadable.   (* the file exists but h5py cannot open it (OSError):
+                                        not HDF5, e.g. a git-lfs pointer; a directory; ... *)
 Definition dshape_eqb (a b : dshape) : bool :=
   match a, b with
   | ShapeOk, ShapeOk | ShapeSmaller, ShapeSmaller | ShapeBroadcast, ShapeBroadcast
-  | ShapeMissing, ShapeMissing => true
+  | ShapeMissing, ShapeMissing | FileUnreadable, FileUnreadable => true
   | _, _ => false
   end.
 Lemma dshape_eqb_eq a b : dshape_eqb a b = true <-> a = b.
@@ -70,7 +72,8 @@ Record cfg := mkcfg {
   c_row_major : bool;        (* outer loop runs over the FIRST particle index *)
   c_key_order : bool;        (* file name and dataset name are built from (particle1, particle2) *)
   c_store_order : bool;      (* collisionFileArray[i, :, :, j, :, :] = ...  *)
-  c_kind_missing : errkind;  (* except FileNotFoundError: raise <this> *)
+  c_kind_missing : errkind;  (* what a FileNotFoundError at the open becomes *)
+  c_kind_unreadable : errkind;  (* what any other OSError at the open becomes *)
   c_guards_every : list (guard * errkind);  (* checks on every file, in source order *)
   c_guards_later : list (guard * errkind);  (* checks on every file but the first one *)
   c_kind_nointerp : errkind;
@@ -156,6 +159,7 @@ Definition step (dir : directory) (N : nat) (parts : list nat) (st : lstate) (p 
   match dir (nth (fst kp) parts 0) (nth (snd kp) parts 0) with
   | None => Err (c_kind_missing c)
   | Some f =>
+    if dshape_eqb (f_shape f) FileUnreadable then Err (c_kind_unreadable c) else
     match first_fail (c_guards_every c) N f (fst st) with
     | Some k => Err k
     | None =>
@@ -163,7 +167,7 @@ Definition step (dir : directory) (N : nat) (parts : list nat) (st : lstate) (p 
       let stored := match f_shape f with
                     | ShapeOk => Ok (mkblock (f_data f) (f_size f) (f_basis f) true)
                     | ShapeBroadcast => Ok (mkblock (f_data f) (f_size f) (f_basis f) false)
-                    | ShapeSmaller | ShapeMissing => Err OtherError
+                    | ShapeSmaller | ShapeMissing | FileUnreadable => Err OtherError
                     end in
       match fst st with
       | None => match stored with
@@ -323,7 +327,7 @@ Definition data_good : bool :=
 
 (** every fault of the property's quantifier is reported as CollisionLoadError *)
 Definition kinds_good : bool :=
-  is_cle (c_kind_missing c) &&
+  is_cle (c_kind_missing c) && is_cle (c_kind_unreadable c) &&
   forallb guard_kind_ok (c_guards_every c) && forallb guard_kind_ok (c_guards_later c) &&
   is_cle (c_kind_nointerp c).
 
@@ -437,8 +441,10 @@ Qed.
 
 (** invariant of the loop: processed pairs hold their file's block, every file agrees
     with the header, untouched positions are unchanged *)
+(** the only demand on a directory: the files that CAN be opened carry a recognised
+    "Basis Type" (an unreadable file has no metadata to speak of) *)
 Definition wf_dir (dir : directory) (parts : list nat) : Prop :=
-  forall i j f, dir i j = Some f -> known (f_basis f) = true.
+  forall i j f, dir i j = Some f -> f_shape f <> FileUnreadable -> known (f_basis f) = true.
 
 Record inv (dir : directory) (N : nat) (parts : list nat) (done : list (nat * nat))
        (st : lstate) : Prop := {
@@ -459,6 +465,7 @@ Proof.
   intros I Hp Hs. unfold step in Hs.
   rewrite g_key, g_store in Hs. cbn [swap_if] in Hs.
   destruct (dir (nth (fst p) parts 0) (nth (snd p) parts 0)) as [f|] eqn:Ef; [|discriminate].
+  destruct (dshape_eqb (f_shape f) FileUnreadable); [discriminate|].
   destruct (first_fail (c_guards_every c) N f (fst st)) eqn:E1; [discriminate|].
   pose proof (first_fail_none _ _ _ _ GOversized E1 g_over) as Hov. cbn in Hov.
   apply Nat.ltb_ge in Hov.
@@ -645,6 +652,8 @@ Ltac split_kgood :=
   repeat (apply andb_true_iff in H; let H' := fresh "G" in destruct H as [H H']).
 Lemma g_missing : c_kind_missing c = CollisionLoadError.
 Proof. split_kgood. apply errkind_eqb_eq. assumption. Qed.
+Lemma g_unreadable : c_kind_unreadable c = CollisionLoadError.
+Proof. split_kgood. apply errkind_eqb_eq. assumption. Qed.
 Lemma g_every_kind : forallb guard_kind_ok (c_guards_every c) = true.
 Proof. split_kgood; assumption. Qed.
 Lemma g_later_kind : forallb guard_kind_ok (c_guards_later c) = true.
@@ -659,7 +668,10 @@ Proof.
   destruct (step c dir N parts st p) as [st1|k1] eqn:Es; [eauto|].
   injection H as <-. unfold step in Es.
   destruct (dir _ _) as [f|] eqn:Ef; [|injection Es as <-; apply g_missing].
-  pose proof (W _ _ _ Ef) as Hk.
+  destruct (dshape_eqb (f_shape f) FileUnreadable) eqn:Eu;
+    [injection Es as <-; apply g_unreadable|].
+  assert (Hk : known (f_basis f) = true).
+  { apply (W _ _ _ Ef). intros E. rewrite E in Eu. discriminate. }
   destruct (first_fail (c_guards_every c) N f (fst st)) eqn:E1.
   - injection Es as <-. eapply first_fail_kind; eauto. apply g_every_kind.
   - pose proof (first_fail_none _ _ _ _ GDatasetShape E1 g_shape) as Hsh. cbn in Hsh.
@@ -687,7 +699,10 @@ Proof.
     assert (H0 : 0 < length parts) by (destruct parts; [congruence|cbn; lia]).
     destruct (inv_blocks _ _ _ _ _ I (0, 0) (pairs_complete _ 0 0 H0 H0))
       as (f & hd & A & B & [C1 C2] & D & E). cbn in B. injection B as <-. cbn in C1, C2.
-    pose proof (W _ _ _ A) as Kf. rewrite C2 in Kf.
+    assert (Kf : known (f_basis f) = true).
+    { apply (W _ _ _ A). rewrite (inv_shape _ _ _ _ _ I (0, 0) f (pairs_complete _ 0 0 H0 H0) A).
+      discriminate. }
+    rewrite C2 in Kf.
     rewrite g_final, g_direct, g_interp, g_isize. cbn [resolve].
     destruct (sz =? N) eqn:Esz.
     + intros H. apply changeBasis_err in H. congruence.
@@ -744,7 +759,7 @@ Lemma loop_clean dir N parts sz bt :
 Proof.
   intros Hn Hk. induction ps as [|p ps IH]; intros st Hf Hh; cbn [loop]; [eauto|].
   destruct (Hf p (or_introl eq_refl)) as (f & Ef & Es & Eb & Esh).
-  unfold step. rewrite g_key, g_store. cbn [swap_if]. rewrite Ef, Esh.
+  unfold step. rewrite g_key, g_store. cbn [swap_if]. rewrite Ef, Esh. cbn [dshape_eqb].
   assert (Hc : forall hd, (forall h, hd = Some h -> h = (sz, bt)) ->
                forall gs, first_fail gs N f hd = None).
   { intros hd Hhd gs. apply first_fail_clean; [lia|congruence|exact Esh|].
@@ -772,7 +787,9 @@ Proof.
     exists sz, bt.
     destruct (inv_blocks _ _ _ _ _ I (0, 0) (pairs_complete _ 0 0 H0 H0))
       as (f & hd & A & B & [C1 C2] & D & E). cbn in B. injection B as <-. cbn in C1, C2.
-    split; [lia|]. split; [rewrite <- C2; eapply W; eauto|].
+    split; [lia|]. split.
+    { rewrite <- C2. apply (W _ _ _ A).
+      rewrite (inv_shape _ _ _ _ _ I (0, 0) f (pairs_complete _ 0 0 H0 H0) A). discriminate. }
     intros i j Hi Hj.
     destruct (inv_blocks _ _ _ _ _ I (i, j) (pairs_complete _ i j Hi Hj))
       as (f' & hd' & A' & B' & [C1' C2'] & _). cbn in B'. injection B' as <-.
